@@ -448,7 +448,10 @@ class Scenario(object):
         if k == 'create':
             return b.create_portfolio(op[1], name='n')
         if k == 'order':
-            o = Order(b.current_dt, op[2], op[3], order_id=op[4], commission=(op[5] if len(op) > 5 else 0.0))
+            created = b.current_dt
+            if len(op) > 6 and op[6]:
+                created = b.current_dt + pd.Timedelta(op[6])     # an order object stamped earlier / later than "now"
+            o = Order(created, op[2], op[3], order_id=op[4], commission=(op[5] if len(op) > 5 else 0.0))
             return b.submit_order(op[1], o)
         if k in GETTER_FAULTS:
             return getattr(b, GETTER_FAULTS[k][0])(op[1])
@@ -1496,6 +1499,9 @@ class Gen(object):
         self.norder = 0
         self.ids_by_pid = {}
         self.idle = set()
+        self.names = ['p1', 'p2', 'p3', 'p4']
+        if rng.random() < 0.5:
+            rng.shuffle(self.names)          # portfolios are not created in the alphabetical order of their ids
 
     def qty(self, pid=None, asset=None):
         rng = self.rng
@@ -1540,9 +1546,9 @@ class Gen(object):
         pids = list(sc.model.ports)
         if not pids or (len(pids) < 4 and rng.random() < 0.06):
             if not pids and rng.random() < 0.15:
-                self.idle.add('p1')              # the first portfolio stays cash-less and idle
-                self.queue.append(['create', 'p2'])
-            return ['create', 'p%d' % (len(pids) + 1)]
+                self.idle.add(self.names[0])     # the first portfolio stays cash-less and idle
+                self.queue.append(['create', self.names[1]])
+            return ['create', self.names[len(pids)]]
         if self.faults != 'none' and rng.random() < (0.22 if self.faults == 'all' else 0.06):
             f = self.fault()
             if f is not None:
@@ -1577,6 +1583,12 @@ class Gen(object):
             o_ = ['order', pid, a, self.qty(pid, a), self.oid(pid)]
             if rng.random() < 0.1:
                 o_.append(rng.choice([4.95, 1.0, 25.0]))      # Order(commission=...): optional argument of the public class
+            if rng.random() < 0.2:
+                # the Order object carries a creation time other than the broker's "now" (built earlier and kept, or
+                # stamped with the next open): submission order, not creation time, decides the sequence of fills
+                if len(o_) == 5:
+                    o_.append(0.0)
+                o_.append(rng.choice(['-2h', '-3D', '1D', '-1us', '17h30min']))
             return o_
         if r < 0.83:
             self.tmax = next_time(rng, self.tmax)
